@@ -134,6 +134,10 @@ func (s *Scen) attStep(m *attMsg) *Step {
 		} else if uint64(m.data.Index)+1 == m.cps {
 			bnd = "committee_index=count-1"
 		}
+		bnd = joinTags(bnd, s.forkEpochTag("slot", s.spec().SlotToEpoch(m.data.Slot)))
+	}
+	if strings.HasPrefix(m.desc, "clock:old-") && chain.ForkAtEpoch(s.spec(), s.spec().SlotToEpoch(m.data.Slot)) >= chain.Deneb {
+		bnd = joinTags(bnd, "window-end-deneb-rule:"+strings.TrimPrefix(m.desc, "clock:old-"))
 	}
 	return &Step{Topic: "att", Desc: m.desc, Variant: m.variant, Bnd: bnd, Cond: cond, Key: map[string][]string{"att": {key}}, Now: m.now, Bad: m.bad,
 		Run: func(b *Backend) gossipval.GossipValidatorResult {
@@ -297,7 +301,7 @@ func (s *Scen) attSites(back common.Slot) []attSite {
 
 func (s *Scen) attHistories(tier string, rng *rand.Rand) []*History {
 	var out []*History
-	if s.Name == "p0early" || s.Name == "altmid" || s.Name == "latebel" {
+	if s.Name == "p0early" || s.Name == "altmid" || s.Name == "latebel" || s.Name == "late1" {
 		return nil
 	}
 	back := common.Slot(2 * uint64(s.spec().SLOTS_PER_EPOCH))
